@@ -710,3 +710,1002 @@ Proof.
   - intros; apply wider_refl.
   - intros; apply wider_refl.
 Qed.
+
+(* ================================================================== CombineContainers *)
+Lemma map_opt_Forall2 : forall {A B} (f : A -> option B) l l',
+  map_opt f l = Some l' -> Forall2 (fun a b => f a = Some b) l l'.
+Proof.
+  intros A B f. induction l as [|x r IH]; intros l' E; simpl in E.
+  - inversion E; constructor.
+  - destruct (f x) eqn:Ex; [|discriminate]. destruct (map_opt f r) eqn:Er; [|discriminate].
+    inversion E; subst. constructor; [assumption | apply IH; reflexivity].
+Qed.
+
+Lemma union_map_wider : forall H (f : ty -> ty) l,
+  (forall t, In t l -> wider H t (f t)) -> wider H (TUnion l) (TUnion (map f l)).
+Proof.
+  intros H f l Hf v A. apply admits_union in A. destruct A as [t [Hin A]].
+  apply admits_union. exists (f t). split; [apply in_map; assumption | apply Hf; assumption].
+Qed.
+
+Lemma last_or_nonempty : forall d d' ps, ps <> [] -> last_or d ps = last_or d' ps.
+Proof.
+  intros d d' ps. induction ps as [|p r IH]; intros N; [congruence|].
+  destruct r as [|q r']; [reflexivity|]. simpl in *. apply IH. discriminate.
+Qed.
+
+Lemma last_or_In : forall d ps, ps <> [] -> In (last_or d ps) ps.
+Proof.
+  intros d ps. induction ps as [|p r IH]; intros N; [congruence|].
+  destruct r as [|q r']; [left; reflexivity|]. right. apply IH. discriminate.
+Qed.
+
+Lemma Forall2_ex : forall {A B} (R : A -> B -> Prop) l l',
+  Forall2 R l l' -> Forall (fun x => exists p, In p l /\ R p x) l'.
+Proof.
+  induction 1; constructor.
+  - exists x; split; [left; reflexivity | assumption].
+  - eapply Forall_impl; [|exact IHForall2]. intros a [p [Hp Rp]]. exists p; split; [right; assumption | assumption].
+Qed.
+
+Lemma cc_conv_wider : forall H mt mc t, wider H t (cc_conv mt mc t).
+Proof.
+  intros H mt mc t v A. destruct t; simpl; try assumption.
+  - destruct mt; [|assumption]. apply admits_tup in A. destruct A as [items [-> [S F]]].
+    apply admits_gen. split; [assumption|]. simpl. split; [|exact I].
+    apply Forall2_ex in F. eapply Forall_impl; [|exact F]. intros a [p [Hp Ap]].
+    eapply join_widens; eassumption.
+  - destruct mc; [|assumption]. apply admits_call in A. destruct A as [a [r [-> [S [L A]]]]].
+    apply admits_gen. split; [assumption|]. simpl. split; [constructor|]. split; [|exact I].
+    constructor; [|constructor].
+    rewrite (last_or_nonempty TAny TNothing); [assumption|]. destruct ps; discriminate.
+Qed.
+
+Lemma cc_conv_wf : forall k mt mc t, wf k t -> wf k (cc_conv mt mc t).
+Proof.
+  intros k mt mc t W. destruct t; simpl; try assumption.
+  - destruct mt; [|assumption]. pose proof (wf_tup_inv _ _ _ _ W) as Wp. inversion W; subst.
+    constructor. constructor; [|constructor]. apply join_wf; assumption.
+  - destruct mc; [|assumption]. pose proof (wf_call_inv _ _ _ _ W) as Wp. inversion W; subst.
+    constructor. constructor; [constructor|]. constructor; [|constructor].
+    destruct ps as [|p r]; [constructor|]. rewrite Forall_forall in Wp. apply Wp.
+    apply last_or_In. discriminate.
+Qed.
+
+Lemma zip_join_pw_l : forall H a b, pw H a (zip_join a b).
+Proof.
+  intros H a; induction a as [|x r IH]; intros b; simpl; [constructor|].
+  destruct b as [|y b']; constructor; [|apply IH].
+  apply join_widens. left; reflexivity.
+Qed.
+Lemma zip_join_pw_r : forall H a b, pw H b (zip_join a b).
+Proof.
+  intros H a; induction a as [|x r IH]; intros b; simpl; [constructor|].
+  destruct b as [|y b']; constructor; [|apply IH].
+  apply join_widens. right; left; reflexivity.
+Qed.
+Lemma zip_join_length : forall a b, length a = length b -> length (zip_join a b) = length a.
+Proof.
+  induction a as [|x r IH]; intros b L; destruct b; simpl in *; try lia. rewrite IH; lia.
+Qed.
+Lemma zip_join_wf : forall k a b, Forall (wf k) a -> Forall (wf k) b -> Forall (wf k) (zip_join a b).
+Proof.
+  intros k a; induction a as [|x r IH]; intros b Fa Fb; simpl; [constructor|].
+  destruct b as [|y b']; [constructor|]. inversion Fa; inversion Fb; subst.
+  constructor; [apply join_wf; repeat constructor; assumption | apply IH; assumption].
+Qed.
+
+Lemma fold_zip_pw : forall H rest init,
+  pw H init (fold_left (fun acc t => zip_join acc (params_of t)) rest init) /\
+  forall m, In m rest -> pw H (params_of m) (fold_left (fun acc t => zip_join acc (params_of t)) rest init).
+Proof.
+  intros H rest; induction rest as [|a r IH]; intros init; simpl.
+  - split; [apply pw_refl | intros m []].
+  - destruct (IH (zip_join init (params_of a))) as [P1 P2]. split.
+    + eapply pw_trans; [apply zip_join_pw_l | exact P1].
+    + intros m [<-|Hin]; [eapply pw_trans; [apply zip_join_pw_r | exact P1] | apply P2; assumption].
+Qed.
+Lemma fold_zip_length : forall n rest init, length init = n ->
+  (forall m, In m rest -> length (params_of m) = n) ->
+  length (fold_left (fun acc t => zip_join acc (params_of t)) rest init) = n.
+Proof.
+  intros n rest; induction rest as [|a r IH]; intros init Li Lr; simpl; [assumption|].
+  apply IH.
+  - rewrite zip_join_length; [assumption|]. rewrite Li. symmetry. apply Lr. left; reflexivity.
+  - intros m Hm. apply Lr. right; assumption.
+Qed.
+Lemma fold_zip_wf : forall k rest init, Forall (wf k) init ->
+  (forall m, In m rest -> Forall (wf k) (params_of m)) ->
+  Forall (wf k) (fold_left (fun acc t => zip_join acc (params_of t)) rest init).
+Proof.
+  intros k rest; induction rest as [|a r IH]; intros init Fi Fr; simpl; [assumption|].
+  apply IH; [apply zip_join_wf; [assumption | apply Fr; left; reflexivity] | intros m Hm; apply Fr; right; assumption].
+Qed.
+
+Lemma params_of_wf : forall k t, wf k t -> Forall (wf k) (params_of t).
+Proof. intros k t W. destruct t; simpl; try constructor; inversion W; assumption. Qed.
+
+Lemma ckey_eqb_eq : forall a b, ckey_eqb a b = true <-> a = b.
+Proof.
+  destruct a, b; simpl; split; try congruence.
+  - rewrite andb_true_iff, kind_eqb_eq, Nat.eqb_eq. intros [? ?]; congruence.
+  - intros E; inversion E; subst. rewrite andb_true_iff, kind_eqb_eq, Nat.eqb_eq. auto.
+  - rewrite !andb_true_iff, kind_eqb_eq, !Nat.eqb_eq. intros [[? ?] ?]; congruence.
+  - intros E; inversion E; subst. rewrite !andb_true_iff, kind_eqb_eq, !Nat.eqb_eq. auto.
+Qed.
+
+Lemma has_key_iff : forall key t, has_key key t = true <-> key_of t = Some key.
+Proof.
+  intros key t. unfold has_key. destruct (key_of t) as [k'|]; [|split; discriminate].
+  rewrite ckey_eqb_eq. split; congruence.
+Qed.
+
+(* every member with this key is covered by the merged parameters *)
+Lemma merged_covers : forall H key whole m, In m whole -> key_of m = Some key ->
+  pw H (params_of m) (merged key whole).
+Proof.
+  intros H key whole m Hin Hk. unfold merged.
+  assert (Hm : In m (filter (has_key key) whole)) by (apply filter_In; split; [assumption | apply has_key_iff; assumption]).
+  destruct (filter (has_key key) whole) as [|t0 rest]; [contradiction|].
+  destruct (fold_zip_pw H rest (params_of t0)) as [P1 P2]. destruct Hm as [<-|Hm]; auto.
+Qed.
+
+Lemma merged_length : forall k c n whole m, In m whole -> key_of m = Some (KN k c n) ->
+  length (merged (KN k c n) whole) = n.
+Proof.
+  intros k c n whole m0 Hin0 Hk0. unfold merged.
+  assert (Hm0 : In m0 (filter (has_key (KN k c n)) whole))
+    by (apply filter_In; split; [assumption | apply has_key_iff; assumption]).
+  pose proof (fun m => proj1 (filter_In (has_key (KN k c n)) m whole)) as Fi.
+  destruct (filter (has_key (KN k c n)) whole) as [|t0 rest]; [contradiction|].
+  assert (L : forall m, In m (t0 :: rest) -> length (params_of m) = n).
+  { intros m Hm. apply Fi in Hm. destruct Hm as [_ Hk]. apply has_key_iff in Hk.
+    destruct m; simpl in Hk; try discriminate; inversion Hk; reflexivity. }
+  apply fold_zip_length; [apply L; left; reflexivity | intros m Hm; apply L; right; assumption].
+Qed.
+
+Lemma merged_wf : forall k key whole, Forall (wf k) whole -> Forall (wf k) (merged key whole).
+Proof.
+  intros k key whole F. unfold merged.
+  pose proof (fun m => proj1 (filter_In (has_key key) m whole)) as Fi.
+  destruct (filter (has_key key) whole) as [|t0 rest]; [constructor|].
+  rewrite Forall_forall in F.
+  apply fold_zip_wf.
+  - apply params_of_wf. apply F. apply (Fi t0). left; reflexivity.
+  - intros m Hm. apply params_of_wf. apply F. apply (Fi m). right; assumption.
+Qed.
+
+(* a member is covered by the re-parameterised first occurrence with the same key *)
+Lemma same_key_wider : forall H k key t0 t ps',
+  wf k t0 -> wf k t -> key_of t0 = Some key -> key_of t = Some key ->
+  pw H (params_of t0) ps' -> (forall k' c n, key = KN k' c n -> length ps' = n) ->
+  wider H t0 (with_params t ps').
+Proof.
+  intros H k key t0 t ps' W0 W K0 K P L.
+  destruct t0; simpl in K0; try discriminate; destruct t; simpl in K; try discriminate;
+    inversion K0; subst key; inversion K; subst; simpl in *.
+  - apply wider_gen; assumption.
+  - apply wider_tup; [assumption | eapply L; reflexivity].
+  - (* tuple vs callable with one key: excluded by wf *)
+    exfalso. inversion W0; subst. inversion W; subst. discriminate.
+  - exfalso. inversion W0; subst. inversion W; subst. discriminate.
+  - apply wider_call; [assumption | eapply L; reflexivity].
+Qed.
+
+Lemma with_params_wf : forall k t ps, wf k t -> Forall (wf k) ps -> wf k (with_params t ps).
+Proof. intros k t ps W F. destruct t; simpl; try assumption; inversion W; subst; constructor; assumption. Qed.
+
+Section CCEmit.
+  Variable H : hier.
+  Variable k : kind.
+  Variable rec : ty -> option ty.
+  Hypothesis rec_ok : forall t t', wf k t -> rec t = Some t' -> wider H t t' /\ wf k t'.
+  Variable whole : list ty.
+  Hypothesis whole_wf : Forall (wf k) whole.
+
+  Lemma rec_params : forall ps ps', Forall (wf k) ps -> map_opt rec ps = Some ps' ->
+    pw H ps ps' /\ length ps' = length ps /\ Forall (wf k) ps'.
+  Proof.
+    intros ps ps' F E. apply map_opt_Forall2 in E. induction E; simpl.
+    - repeat split; constructor.
+    - inversion F; subst. destruct (rec_ok _ _ H3 H0) as [Wd Wf']. destruct (IHE H4) as [P [L F']].
+      repeat split; [constructor; assumption | lia | constructor; assumption].
+  Qed.
+
+  Lemma rec_params_f2 : forall ps ps', Forall (wf k) ps -> map_opt rec ps = Some ps' ->
+    Forall2 (wider H) ps ps'.
+  Proof.
+    intros ps ps' F E. apply map_opt_Forall2 in E. induction E; constructor.
+    - inversion F; subst. apply (rec_ok _ _ H3 H0).
+    - inversion F; subst. apply IHE; assumption.
+  Qed.
+
+  Lemma cc_emit_sound : forall l done result t',
+    (forall t, In t l -> In t whole) ->
+    wf k result ->
+    (forall t0 key, In t0 whole -> key_of t0 = Some key -> mem_by ckey_eqb key done = true ->
+                    wider H t0 result) ->
+    cc_emit rec whole done result l = Some t' ->
+    wf k t' /\ wider H result t' /\ forall t, In t l -> wider H t t'.
+  Proof.
+    induction l as [|t r IH]; intros done result t' Sub Wr Done E; simpl in E.
+    - inversion E; subst. repeat split; [assumption | apply wider_refl | intros ? []].
+    - assert (Wt : wf k t).
+      { rewrite Forall_forall in whole_wf. apply whole_wf. apply Sub. left; reflexivity. }
+      assert (Sub' : forall x, In x r -> In x whole) by (intros; apply Sub; right; assumption).
+      destruct (key_of t) as [key|] eqn:Kt.
+      + destruct (mem_by ckey_eqb key done) eqn:Md.
+        * destruct (IH _ _ _ Sub' Wr Done E) as [W' [R' A']]. repeat split; try assumption.
+          intros x [<-|Hx]; [|auto]. eapply wider_trans; [|exact R'].
+          eapply Done; [apply Sub; left; reflexivity | exact Kt | exact Md].
+        * destruct (map_opt rec (merged key whole)) as [ps'|] eqn:Em; [|discriminate].
+          destruct (rec_params _ _ (merged_wf k key whole whole_wf) Em) as [P [L F']].
+          assert (Cov : forall t0, In t0 whole -> key_of t0 = Some key -> wider H t0 (with_params t ps')).
+          { intros t0 H0 K0. rewrite Forall_forall in whole_wf.
+            eapply (same_key_wider H k key); try eassumption; [apply whole_wf; assumption | |].
+            - eapply pw_trans; [apply merged_covers; eassumption | exact P].
+            - intros k' c n ->. rewrite L. eapply merged_length; eassumption. }
+          assert (Wa : wf k (with_params t ps')) by (apply with_params_wf; assumption).
+          assert (Wj : wf k (join [result; with_params t ps'])).
+          { apply join_wf. repeat constructor; assumption. }
+          edestruct (IH (key :: done) (join [result; with_params t ps']) t' Sub' Wj) as [W' [R' A']]; [|exact E|].
+          { intros t0 key0 H0 K0 M0. simpl in M0. apply orb_true_iff in M0. destruct M0 as [M0|M0].
+            - apply ckey_eqb_eq in M0. subst key0.
+              eapply wider_trans; [apply Cov; assumption|]. apply join_widens. right; left; reflexivity.
+            - eapply wider_trans; [eapply Done; eassumption|]. apply join_widens. left; reflexivity. }
+          repeat split; try assumption.
+          -- eapply wider_trans; [|exact R']. apply join_widens. left; reflexivity.
+          -- intros x [<-|Hx]; [|auto]. eapply wider_trans; [|exact R'].
+             eapply wider_trans; [apply Cov; [apply Sub; left; reflexivity | exact Kt]|].
+             apply join_widens. right; left; reflexivity.
+      + assert (Wj : wf k (join [result; t])) by (apply join_wf; repeat constructor; assumption).
+        edestruct (IH done (join [result; t]) t' Sub' Wj) as [W' [R' A']]; [|exact E|].
+        { intros t0 key0 H0 K0 M0. eapply wider_trans; [eapply Done; eassumption|].
+          apply join_widens. left; reflexivity. }
+        repeat split; try assumption.
+        * eapply wider_trans; [|exact R']. apply join_widens. left; reflexivity.
+        * intros x [<-|Hx]; [|auto]. eapply wider_trans; [|exact R']. apply join_widens. right; left; reflexivity.
+  Qed.
+End CCEmit.
+
+Lemma cc_union_sound : forall H k rec,
+  (forall t t', wf k t -> rec t = Some t' -> wider H t t' /\ wf k t') ->
+  forall l0 t', Forall (wf k) l0 -> cc_union rec l0 = Some t' ->
+  wider H (TUnion l0) t' /\ wf k t'.
+Proof.
+  intros H k rec Hrec l0 t' F0 E. unfold cc_union in E.
+  destruct (negb (existsb is_generic l0)).
+  { inversion E; subst. split; [apply wider_refl | constructor; assumption]. }
+  set (u := join l0) in *.
+  set (l := match u with TUnion l' => l' | _ => [u] end) in *.
+  assert (Wu : wf k u) by (apply join_wf; assumption).
+  assert (Fl : Forall (wf k) l).
+  { unfold l. destruct u; try (constructor; [assumption | constructor]). apply wf_union_inv; assumption. }
+  assert (W1 : wider H (TUnion l0) (TUnion l)).
+  { eapply wider_trans; [apply join_wider_union|]. fold u. unfold l.
+    destruct u; try (intros v A; apply admits_union; eexists; split; [left; reflexivity | exact A]).
+    apply wider_refl. }
+  set (mt := should_merge true None l) in *. set (mc := should_merge false None l) in *.
+  set (l2 := if mt || mc then map (cc_conv mt mc) l else l) in *.
+  assert (Fl2 : Forall (wf k) l2).
+  { unfold l2. destruct (mt || mc); [|assumption]. apply Forall_forall. intros x Hx.
+    apply in_map_iff in Hx. destruct Hx as [t [<- Hin]]. apply cc_conv_wf. rewrite Forall_forall in Fl; auto. }
+  assert (W2 : wider H (TUnion l) (TUnion l2)).
+  { unfold l2. destruct (mt || mc); [|apply wider_refl]. apply union_map_wider. intros; apply cc_conv_wider. }
+  destruct (negb (has_redundant l2)).
+  { inversion E; subst. split; [eapply wider_trans; eassumption | constructor; assumption]. }
+  destruct (cc_emit_sound H k rec Hrec l2 Fl2 l2 [] TNothing t') as [W' [_ A']]; try assumption.
+  - auto.
+  - constructor.
+  - intros t0 key _ _ M. discriminate.
+  - split; [|assumption]. eapply wider_trans; [exact W1|]. eapply wider_trans; [exact W2|].
+    intros v A. apply admits_union in A. destruct A as [t [Hin A]]. eapply A'; eassumption.
+Qed.
+
+Lemma cc_sound : forall H k n t t', wf k t -> cc n t = Some t' -> wider H t t' /\ wf k t'.
+Proof.
+  intros H k n; induction n as [|f IH]; intros t t' W E; simpl in E; [discriminate|].
+  assert (Ch : forall ps ps', Forall (wf k) ps -> map_opt (cc f) ps = Some ps' ->
+               pw H ps ps' /\ length ps' = length ps /\ Forall (wf k) ps').
+  { intros ps ps' F Em. eapply (rec_params H k (cc f)); eauto. }
+  destruct t; try (inversion E; subst; split; [apply wider_refl | assumption]).
+  - destruct (map_opt (cc f) ts) as [ts'|] eqn:Em; [|discriminate].
+    destruct (Ch _ _ (wf_union_inv _ _ W) Em) as [P [L F']].
+    destruct (cc_union_sound H k (cc f) IH (norm_union ts') t') as [W1 W2]; try assumption.
+    + apply norm_union_elems; [apply wf_union_inv | assumption].
+    + split; [|assumption]. eapply wider_trans; [|exact W1].
+      intros v A. apply norm_union_admits. apply admits_union in A. destruct A as [t [Hin A]].
+      apply admits_union.
+      pose proof (rec_params_f2 H k (cc f) IH _ _ (wf_union_inv _ _ W) Em) as F2.
+      clear - F2 Hin A. induction F2; [contradiction|].
+      destruct Hin as [<-|Hin].
+      * exists y. split; [left; reflexivity | apply H0; assumption].
+      * destruct (IHF2 Hin) as [z [Hz Az]]. exists z. split; [right; assumption | assumption].
+  - destruct (map_opt (cc f) ps) as [ps'|] eqn:Em; [|discriminate]. simpl in E. inversion E; subst.
+    destruct (Ch _ _ (wf_gen_inv _ _ _ _ W) Em) as [P [L F']].
+    split; [apply wider_gen; assumption | inversion W; subst; constructor; assumption].
+  - destruct (map_opt (cc f) ps) as [ps'|] eqn:Em; [|discriminate]. simpl in E. inversion E; subst.
+    destruct (Ch _ _ (wf_tup_inv _ _ _ _ W) Em) as [P [L F']].
+    split; [apply wider_tup; assumption | inversion W; subst; constructor; assumption].
+  - destruct (map_opt (cc f) ps) as [ps'|] eqn:Em; [|discriminate]. simpl in E. inversion E; subst.
+    destruct (Ch _ _ (wf_call_inv _ _ _ _ W) Em) as [P [L F']].
+    split; [apply wider_call; assumption | inversion W; subst; constructor; assumption].
+Qed.
+
+Lemma combine_containers_widens_lemma : forall H k t, wf k t -> wider H t (combine_containers t).
+Proof.
+  intros H k t W. unfold combine_containers, cc_top. destruct (cc (2 * size t + 2) t) eqn:E; [|apply wider_refl].
+  apply (cc_sound H k _ _ _ W E).
+Qed.
+Lemma combine_containers_wf : forall k t, wf k t -> wf k (combine_containers t).
+Proof.
+  intros k t W. unfold combine_containers, cc_top. destruct (cc (2 * size t + 2) t) eqn:E; [|assumption].
+  apply (cc_sound [] k _ _ _ W E).
+Qed.
+
+(* ================================================================== declarations: order properties *)
+Lemma param_wider_refl : forall H p, param_wider H p p.
+Proof.
+  intros H p. unfold param_wider. repeat split; try apply wider_refl.
+  destruct (p_mut p); [apply wider_refl | reflexivity].
+Qed.
+Lemma param_wider_trans : forall H a b c, param_wider H a b -> param_wider H b c -> param_wider H a c.
+Proof.
+  intros H a b c [N1 [K1 [O1 [T1 M1]]]] [N2 [K2 [O2 [T2 M2]]]]. unfold param_wider.
+  repeat split; try congruence; [eapply wider_trans; eassumption|].
+  destruct (p_mut a) as [m|]; destruct (p_mut b) as [m'|]; destruct (p_mut c) as [m''|];
+    try congruence; try discriminate; try (eapply wider_trans; eassumption).
+Qed.
+Lemma oparam_wider_refl : forall H p, oparam_wider H p p.
+Proof. intros H [p|]; simpl; [apply param_wider_refl | exact I]. Qed.
+Lemma oparam_wider_trans : forall H a b c, oparam_wider H a b -> oparam_wider H b c -> oparam_wider H a c.
+Proof.
+  intros H [a|] [b|] [c|]; simpl; try tauto. apply param_wider_trans.
+Qed.
+
+Lemma Forall2_refl : forall {A} (R : A -> A -> Prop), (forall x, R x x) -> forall l, Forall2 R l l.
+Proof. intros A R Rr; induction l; constructor; auto. Qed.
+Lemma Forall2_trans : forall {A} (R : A -> A -> Prop), (forall x y z, R x y -> R y z -> R x z) ->
+  forall a b c, Forall2 R a b -> Forall2 R b c -> Forall2 R a c.
+Proof.
+  intros A R Rt a b c F1; revert c; induction F1; intros c0 F2; inversion F2; subst; constructor; eauto.
+Qed.
+Lemma Forall2_map_r : forall {A B} (R : A -> B -> Prop) (g : A -> B) l,
+  (forall x, In x l -> R x (g x)) -> Forall2 R l (map g l).
+Proof.
+  intros A B R g; induction l as [|x r IH]; intros Hl; simpl; constructor.
+  - apply Hl; left; reflexivity.
+  - apply IH; intros; apply Hl; right; assumption.
+Qed.
+
+Lemma sig_wider_refl : forall H s, sig_wider H s s.
+Proof.
+  intros H s. unfold sig_wider. repeat split; try apply oparam_wider_refl; try apply wider_refl.
+  apply Forall2_refl. apply param_wider_refl.
+Qed.
+Lemma sig_wider_trans : forall H a b c, sig_wider H a b -> sig_wider H b c -> sig_wider H a c.
+Proof.
+  intros H a b c [P1 [S1 [SS1 R1]]] [P2 [S2 [SS2 R2]]]. unfold sig_wider. repeat split.
+  - eapply Forall2_trans; [apply param_wider_trans | eassumption | eassumption].
+  - eapply oparam_wider_trans; eassumption.
+  - eapply oparam_wider_trans; eassumption.
+  - eapply wider_trans; eassumption.
+Qed.
+Lemma func_wider_refl : forall H f, func_wider H f f.
+Proof.
+  intros H f. unfold func_wider. repeat split. intros s Hs. exists s. split; [assumption | apply sig_wider_refl].
+Qed.
+Lemma func_wider_trans : forall H a b c, func_wider H a b -> func_wider H b c -> func_wider H a c.
+Proof.
+  intros H a b c [N1 [K1 S1]] [N2 [K2 S2]]. unfold func_wider. repeat split; try congruence.
+  intros s Hs. destruct (S1 s Hs) as [s' [Hs' W1]]. destruct (S2 s' Hs') as [s'' [Hs'' W2]].
+  exists s''. split; [assumption | eapply sig_wider_trans; eassumption].
+Qed.
+Lemma const_wider_refl : forall H c, const_wider H c c.
+Proof. intros; split; [reflexivity | apply wider_refl]. Qed.
+Lemma const_wider_trans : forall H a b c, const_wider H a b -> const_wider H b c -> const_wider H a c.
+Proof. intros H a b c [N1 W1] [N2 W2]. split; [congruence | eapply wider_trans; eassumption]. Qed.
+Lemma class_wider_refl : forall H c, class_wider H c c.
+Proof.
+  intros; unfold class_wider; repeat split;
+    [apply Forall2_refl; apply func_wider_refl | apply Forall2_refl; apply const_wider_refl].
+Qed.
+Lemma class_wider_trans : forall H a b c, class_wider H a b -> class_wider H b c -> class_wider H a c.
+Proof.
+  intros H a b c [N1 [B1 [M1 C1]]] [N2 [B2 [M2 C2]]]. unfold class_wider. repeat split; try congruence.
+  - eapply Forall2_trans; [apply func_wider_trans | eassumption | eassumption].
+  - eapply Forall2_trans; [apply const_wider_trans | eassumption | eassumption].
+Qed.
+Lemma unit_wider_refl : forall H u, unit_wider H u u.
+Proof.
+  intros; unfold unit_wider; repeat split; apply Forall2_refl;
+    [apply const_wider_refl | apply class_wider_refl | apply func_wider_refl].
+Qed.
+Lemma unit_wider_trans : forall H a b c, unit_wider H a b -> unit_wider H b c -> unit_wider H a c.
+Proof.
+  intros H a b c [C1 [L1 F1]] [C2 [L2 F2]]. unfold unit_wider. repeat split.
+  - eapply Forall2_trans; [apply const_wider_trans | eassumption | eassumption].
+  - eapply Forall2_trans; [apply class_wider_trans | eassumption | eassumption].
+  - eapply Forall2_trans; [apply func_wider_trans | eassumption | eassumption].
+Qed.
+
+(* ================================================================== declarations: invariants *)
+Section Decl.
+Variable P : ty -> Prop.
+Definition wf_param (p : param) : Prop :=
+  P (p_ty p) /\ match p_mut p with Some m => P m | None => True end.
+Definition wf_oparam (p : option param) : Prop :=
+  match p with Some p => wf_param p | None => True end.
+Definition wf_sig (s : sig) : Prop :=
+  Forall (wf_param) (s_params s) /\ wf_oparam (s_star s) /\ wf_oparam (s_starstar s) /\
+  P (s_ret s) /\ Forall P (s_exc s).
+Definition wf_func (f : func) : Prop := Forall (wf_sig) (f_sigs f).
+Definition wf_const (c : const) : Prop := P (k_ty c).
+Definition wf_class (c : class) : Prop :=
+  Forall (wf_func) (cl_methods c) /\ Forall (wf_const) (cl_consts c).
+
+Lemma wf_param_iff : forall p, Forall P (types_of_param p) <-> wf_param p.
+Proof.
+  intros p. unfold types_of_param, wf_param. destruct (p_mut p); split.
+  - intros F; inversion F as [|? ? ? F']; subst; inversion F'; subst; auto.
+  - intros [? ?]; repeat constructor; assumption.
+  - intros F; inversion F; subst; auto.
+  - intros [? _]; repeat constructor; assumption.
+Qed.
+Lemma wf_oparam_iff : forall p, Forall P (types_of_oparam p) <-> wf_oparam p.
+Proof.
+  intros [p|]; simpl; [apply wf_param_iff | split; [intros; exact I | constructor]].
+Qed.
+Lemma wf_sig_iff : forall s, Forall P (types_of_sig s) <-> wf_sig s.
+Proof.
+  intros s. unfold types_of_sig, wf_sig. rewrite !Forall_app, Forall_flat_map, !wf_oparam_iff.
+  assert (E : Forall (fun d => Forall P (types_of_param d)) (s_params s) <-> Forall (wf_param) (s_params s)).
+  { split; intros F; eapply Forall_impl; try exact F; intros a; apply wf_param_iff. }
+  rewrite E. split.
+  - intros [? [? [? [F ?]]]]. inversion F; subst. tauto.
+  - intros [? [? [? [? ?]]]]. repeat split; try assumption. constructor; [assumption | constructor].
+Qed.
+Lemma wf_func_iff : forall f, Forall P (types_of_func f) <-> wf_func f.
+Proof.
+  intros f. unfold types_of_func, wf_func. rewrite Forall_flat_map.
+  split; intros F; eapply Forall_impl; try exact F; intros a; apply wf_sig_iff.
+Qed.
+Lemma wf_unit_iff : forall u,
+  Forall P (types_of_unit u) <-> Forall (wf_const) (u_consts u) /\ Forall (wf_class) (u_classes u) /\
+                  Forall (wf_func) (u_funcs u).
+Proof.
+  intros u. unfold types_of_unit. rewrite !Forall_app, !Forall_flat_map, Forall_map.
+  assert (E1 : Forall (fun d => Forall P (types_of_func d)) (u_funcs u) <-> Forall (wf_func) (u_funcs u)).
+  { split; intros F; eapply Forall_impl; try exact F; intros a; apply wf_func_iff. }
+  assert (E2 : Forall (fun d => Forall P (flat_map types_of_func (cl_methods d) ++ map k_ty (cl_consts d)))
+                      (u_classes u) <-> Forall (wf_class) (u_classes u)).
+  { split; intros F; eapply Forall_impl; try exact F; intros a; unfold wf_class;
+      rewrite Forall_app, Forall_flat_map, Forall_map.
+    - intros [F1 F2]. split; [|exact F2]. eapply Forall_impl; [|exact F1]. intros b; apply wf_func_iff.
+    - intros [F1 F2]. split; [|exact F2]. eapply Forall_impl; [|exact F1]. intros b; apply wf_func_iff. }
+  rewrite E1, E2. unfold wf_const. tauto.
+Qed.
+
+(* the shape every unit-level pass has *)
+Definition unit_map (gc : const -> const) (gm : cid -> func -> func) (gcc : const -> const)
+           (gf : func -> func) (u : unit_) : unit_ :=
+  mkUnit (map gc (u_consts u)) (map (map_class gm gcc) (u_classes u)) (map gf (u_funcs u)).
+
+Lemma Forall_map_pres : forall {A} (Q : A -> Prop) (g : A -> A) l,
+  (forall x, Q x -> Q (g x)) -> Forall Q l -> Forall Q (map g l).
+Proof. intros A Q g l Hg F. induction F; simpl; constructor; auto. Qed.
+
+Lemma unit_map_wf : forall gc gm gcc gf u,
+  (forall c, wf_const c -> wf_const (gc c)) ->
+  (forall n f, wf_func f -> wf_func (gm n f)) ->
+  (forall c, wf_const c -> wf_const (gcc c)) ->
+  (forall f, wf_func f -> wf_func (gf f)) ->
+  Forall P (types_of_unit u) -> Forall P (types_of_unit (unit_map gc gm gcc gf u)).
+Proof.
+  intros gc gm gcc gf u Hc Hm Hcc Hf W. apply wf_unit_iff in W. destruct W as [W1 [W2 W3]].
+  apply wf_unit_iff. simpl. repeat split.
+  - apply Forall_map_pres; assumption.
+  - apply Forall_map_pres; [|assumption]. intros cl [M C]. unfold wf_class; simpl. split.
+    + apply Forall_map_pres; [apply Hm | assumption].
+    + apply Forall_map_pres; assumption.
+  - apply Forall_map_pres; assumption.
+Qed.
+
+Lemma unit_map_wider : forall H gc gm gcc gf u,
+  (forall c, wf_const c -> const_wider H c (gc c)) ->
+  (forall n f, wf_func f -> func_wider H f (gm n f)) ->
+  (forall c, wf_const c -> const_wider H c (gcc c)) ->
+  (forall f, wf_func f -> func_wider H f (gf f)) ->
+  Forall P (types_of_unit u) -> unit_wider H u (unit_map gc gm gcc gf u).
+Proof.
+  intros H gc gm gcc gf u Hc Hm Hcc Hf W. apply wf_unit_iff in W. destruct W as [W1 [W2 W3]].
+  rewrite Forall_forall in W1, W2, W3. unfold unit_wider; simpl. repeat split.
+  - apply Forall2_map_r. intros; apply Hc; auto.
+  - apply Forall2_map_r. intros cl Hcl. destruct (W2 cl Hcl) as [M C]. rewrite Forall_forall in M, C.
+    unfold class_wider; simpl. repeat split.
+    + apply Forall2_map_r. intros; apply Hm; auto.
+    + apply Forall2_map_r. intros; apply Hcc; auto.
+  - apply Forall2_map_r. intros; apply Hf; auto.
+Qed.
+
+Lemma unit_map_hier : forall gc gm gcc gf u, hier_of (unit_map gc gm gcc gf u) = hier_of u.
+Proof.
+  intros. unfold hier_of, unit_map; simpl. rewrite map_map. reflexivity.
+Qed.
+
+(* --- signature-level building blocks *)
+Lemma map_param_wf : forall f p, (forall t, P t -> P (f t)) -> wf_param p -> wf_param (map_param f p).
+Proof.
+  intros f p Hf [W M]. unfold wf_param, map_param; simpl. split; [auto|].
+  destruct (p_mut p); simpl; auto.
+Qed.
+Lemma map_param_wider : forall H f p, (forall t, P t -> wider H t (f t)) -> wf_param p ->
+  param_wider H p (map_param f p).
+Proof.
+  intros H f p Hf [W M]. unfold param_wider, map_param; simpl. repeat split; [auto|].
+  destruct (p_mut p); simpl; auto.
+Qed.
+
+Lemma map_sig3_wf : forall fp fr fe s,
+  (forall t, P t -> P (fp t)) -> (forall t, P t -> P (fr t)) -> (forall t, P t -> P (fe t)) ->
+  wf_sig s -> wf_sig (map_sig3 fp fr fe s).
+Proof.
+  intros fp fr fe s Hp Hr He [Pp [S [SS [R E]]]]. unfold wf_sig, map_sig3; simpl. repeat split.
+  - apply Forall_forall. intros x Hx. apply in_map_iff in Hx. destruct Hx as [p [<- Hin]].
+    apply map_param_wf; [assumption|]. rewrite Forall_forall in Pp; auto.
+  - destruct (s_star s); simpl; [apply map_param_wf; assumption | exact I].
+  - destruct (s_starstar s); simpl; [apply map_param_wf; assumption | exact I].
+  - auto.
+  - apply Forall_forall. intros x Hx. apply in_map_iff in Hx. destruct Hx as [p [<- Hin]].
+    rewrite Forall_forall in E; auto.
+Qed.
+Lemma map_sig3_wider : forall H fp fr fe s,
+  (forall t, P t -> wider H t (fp t)) -> (forall t, P t -> wider H t (fr t)) ->
+  wf_sig s -> sig_wider H s (map_sig3 fp fr fe s).
+Proof.
+  intros H fp fr fe s Hp Hr [Pp [S [SS [R E]]]]. unfold sig_wider, map_sig3; simpl. repeat split.
+  - apply Forall2_map_r. intros p Hin. eapply map_param_wider; [eassumption|]. rewrite Forall_forall in Pp; auto.
+  - destruct (s_star s); simpl; [eapply map_param_wider; eassumption | exact I].
+  - destruct (s_starstar s); simpl; [eapply map_param_wider; eassumption | exact I].
+  - auto.
+Qed.
+
+Lemma map_func_wf : forall g f, (forall s, wf_sig s -> wf_sig (g s)) -> wf_func f -> wf_func (map_func g f).
+Proof. intros g f Hg W. unfold wf_func, map_func; simpl. apply Forall_map_pres; assumption. Qed.
+Lemma map_func_wider : forall H g f, (forall s, wf_sig s -> sig_wider H s (g s)) -> wf_func f ->
+  func_wider H f (map_func g f).
+Proof.
+  intros H g f Hg W. unfold func_wider, map_func; simpl. repeat split. intros s Hs.
+  exists (g s). split; [apply in_map; assumption|]. apply Hg. unfold wf_func in W. rewrite Forall_forall in W; auto.
+Qed.
+
+Lemma map_unit4_eq : forall fp fr fe fc u,
+  map_unit4 fp fr fe fc u =
+  unit_map (map_const fc) (fun _ => map_func (map_sig3 fp fr fe)) (map_const fc) (map_func (map_sig3 fp fr fe)) u.
+Proof. reflexivity. Qed.
+
+Lemma map_unit4_wf : forall fp fr fe fc u,
+  (forall t, P t -> P (fp t)) -> (forall t, P t -> P (fr t)) ->
+  (forall t, P t -> P (fe t)) -> (forall t, P t -> P (fc t)) ->
+  Forall P (types_of_unit u) -> Forall P (types_of_unit (map_unit4 fp fr fe fc u)).
+Proof.
+  intros fp fr fe fc u Hp Hr He Hc W. rewrite map_unit4_eq. apply unit_map_wf; try assumption.
+  - intros c Wc. apply Hc; assumption.
+  - intros _ f Wf. apply map_func_wf; [|assumption]. intros; apply map_sig3_wf; assumption.
+  - intros c Wc. apply Hc; assumption.
+  - intros f Wf. apply map_func_wf; [|assumption]. intros; apply map_sig3_wf; assumption.
+Qed.
+Lemma map_unit4_wider : forall H fp fr fe fc u,
+  (forall t, P t -> wider H t (fp t)) -> (forall t, P t -> wider H t (fr t)) ->
+  (forall t, P t -> wider H t (fc t)) ->
+  Forall P (types_of_unit u) -> unit_wider H u (map_unit4 fp fr fe fc u).
+Proof.
+  intros H fp fr fe fc u Hp Hr Hc W. rewrite map_unit4_eq. apply (unit_map_wider H); try assumption.
+  - intros c Wc. split; [reflexivity | apply Hc; assumption].
+  - intros _ f Wf. eapply map_func_wider; [|eassumption]. intros; eapply map_sig3_wider; eassumption.
+  - intros c Wc. split; [reflexivity | apply Hc; assumption].
+  - intros f Wf. eapply map_func_wider; [|eassumption]. intros; eapply map_sig3_wider; eassumption.
+Qed.
+End Decl.
+
+(* ================================================================== signature equality, `==` *)
+Lemma list_eqb_eq : forall {A} (eqb : A -> A -> bool), (forall a b, eqb a b = true <-> a = b) ->
+  forall l l', list_eqb eqb l l' = true <-> l = l'.
+Proof.
+  intros A eqb He. induction l as [|x r IH]; destruct l' as [|y r']; simpl; split; try congruence; try reflexivity.
+  - rewrite andb_true_iff, He, IH. intros [? ?]; congruence.
+  - intros E; inversion E; subst. rewrite andb_true_iff, He, IH. auto.
+Qed.
+Lemma option_eqb_eq : forall {A} (eqb : A -> A -> bool), (forall a b, eqb a b = true <-> a = b) ->
+  forall a b, option_eqb eqb a b = true <-> a = b.
+Proof.
+  intros A eqb He [a|] [b|]; simpl; split; try congruence; try reflexivity.
+  - rewrite He; congruence.
+  - intros E; inversion E; subst. apply He; reflexivity.
+Qed.
+Lemma param_eqb_eq : forall a b, param_eqb a b = true <-> a = b.
+Proof.
+  intros [n1 t1 k1 o1 m1] [n2 t2 k2 o2 m2]. unfold param_eqb; simpl.
+  rewrite !andb_true_iff, !Nat.eqb_eq, ty_eqb_eq, eqb_true_iff, (option_eqb_eq ty_eqb ty_eqb_eq). split.
+  - intros [[[[? ?] ?] ?] ?]; congruence.
+  - intros E; inversion E; subst; auto.
+Qed.
+Lemma stripped_eqb_iff : forall a b, stripped_eqb a b = true <->
+  s_params a = s_params b /\ s_star a = s_star b /\ s_starstar a = s_starstar b.
+Proof.
+  intros a b. unfold stripped_eqb.
+  rewrite !andb_true_iff, (list_eqb_eq param_eqb param_eqb_eq), !(option_eqb_eq param_eqb param_eqb_eq). tauto.
+Qed.
+Lemma sig_eqb_eq : forall a b, sig_eqb a b = true <-> a = b.
+Proof.
+  intros a b. unfold sig_eqb. rewrite !andb_true_iff, stripped_eqb_iff, ty_eqb_eq, (list_eqb_eq ty_eqb ty_eqb_eq).
+  destruct a, b; simpl. split.
+  - intros [[[? [? ?]] ?] ?]; congruence.
+  - intros E; inversion E; subst; auto.
+Qed.
+
+(* de-duplication keeps a representative of everything *)
+Lemma dedup_from_cover : forall {A} (eqb : A -> A -> bool), (forall a, eqb a a = true) ->
+  forall l seen x, In x l -> mem_by eqb x seen = true \/ mem_by eqb x (dedup_from eqb seen l) = true.
+Proof.
+  intros A eqb Hr. induction l as [|y r IH]; intros seen x Hin; simpl; [contradiction|].
+  destruct (mem_by eqb y seen) eqn:E.
+  - destruct Hin as [->|Hin]; [left; assumption | apply IH; assumption].
+  - destruct Hin as [->|Hin].
+    + right. unfold mem_by; simpl. rewrite Hr. reflexivity.
+    + destruct (IH (y :: seen) x Hin) as [M|M].
+      * unfold mem_by in M; simpl in M. apply orb_true_iff in M. destruct M as [M|M].
+        -- right. unfold mem_by; simpl. rewrite M. reflexivity.
+        -- left. exact M.
+      * right. unfold mem_by in *; simpl. rewrite M. apply orb_true_r.
+Qed.
+Lemma dedup_by_cover : forall {A} (eqb : A -> A -> bool), (forall a, eqb a a = true) ->
+  forall l x, In x l -> exists y, In y (dedup_by eqb l) /\ eqb x y = true.
+Proof.
+  intros A eqb Hr l x Hin. destruct (dedup_from_cover eqb Hr l [] x Hin) as [M|M]; [discriminate|].
+  unfold mem_by in M. apply existsb_exists in M. exact M.
+Qed.
+
+Definition tys_py_eqb := fix go (l l' : list ty) : bool :=
+  match l, l' with
+  | [], [] => true
+  | x :: r, y :: r' => py_eqb x y && go r r'
+  | _, _ => false
+  end.
+
+Lemma tys_py_eqb_pw : forall H l, Forall (fun a => forall b, py_eqb a b = true -> wider H a b) l ->
+  forall l', tys_py_eqb l l' = true -> pw H l l' /\ length l' = length l.
+Proof.
+  intros H l F. induction F as [|x r Hx _ IH]; destruct l' as [|y r']; simpl; intros E; try discriminate.
+  - split; [constructor | reflexivity].
+  - apply andb_true_iff in E. destruct E as [E1 E2]. destruct (IH _ E2) as [Pw L].
+    split; [constructor; auto | lia].
+Qed.
+
+Lemma py_eqb_wider : forall H a b, py_eqb a b = true -> wider H a b.
+Proof.
+  intros H a; induction a using ty_ind'; intros b E;
+    try (assert (E' : ty_eqb _ b = true) by (destruct b; exact E);
+         apply ty_eqb_eq in E'; subst b; apply wider_refl);
+    destruct b; simpl in E; try discriminate.
+  - apply andb_true_iff in E. destruct E as [E _]. intros v A. apply admits_union in A.
+    destruct A as [t [Hin A]]. apply admits_union. exists t. split; [|assumption].
+    rewrite forallb_forall in E. apply memb_In. apply E. assumption.
+  - change (kind_eqb k k0 && Nat.eqb c c0 && tys_py_eqb ps ps0 = true) in E.
+    rewrite !andb_true_iff, kind_eqb_eq, Nat.eqb_eq in E. destruct E as [[-> ->] E].
+    destruct (tys_py_eqb_pw H ps H0 _ E) as [Pw L]. apply wider_gen; assumption.
+  - change (kind_eqb k k0 && Nat.eqb c c0 && tys_py_eqb ps ps0 = true) in E.
+    rewrite !andb_true_iff, kind_eqb_eq, Nat.eqb_eq in E. destruct E as [[-> ->] E].
+    destruct (tys_py_eqb_pw H ps H0 _ E) as [Pw L]. apply wider_tup; assumption.
+  - change (kind_eqb k k0 && Nat.eqb c c0 && tys_py_eqb ps ps0 = true) in E.
+    rewrite !andb_true_iff, kind_eqb_eq, Nat.eqb_eq in E. destruct E as [[-> ->] E].
+    destruct (tys_py_eqb_pw H ps H0 _ E) as [Pw L]. apply wider_call; assumption.
+Qed.
+
+Lemma tys_py_eqb_refl : forall l, Forall (fun a => py_eqb a a = true) l -> tys_py_eqb l l = true.
+Proof. induction 1; simpl; [reflexivity | rewrite H, IHForall; reflexivity]. Qed.
+
+Lemma py_eqb_refl : forall a, py_eqb a a = true.
+Proof.
+  induction a using ty_ind'; simpl; try apply Nat.eqb_refl; try reflexivity.
+  - destruct k; simpl; apply Nat.eqb_refl.
+  - assert (F : forallb (fun x => memb x ts) ts = true) by (apply forallb_forall; intros; apply memb_In; assumption).
+    rewrite F. reflexivity.
+  - change (kind_eqb k k && Nat.eqb c c && tys_py_eqb ps ps = true).
+    rewrite (proj2 (kind_eqb_eq k k) eq_refl), Nat.eqb_refl, tys_py_eqb_refl; auto.
+  - change (kind_eqb k k && Nat.eqb c c && tys_py_eqb ps ps = true).
+    rewrite (proj2 (kind_eqb_eq k k) eq_refl), Nat.eqb_refl, tys_py_eqb_refl; auto.
+  - change (kind_eqb k k && Nat.eqb c c && tys_py_eqb ps ps = true).
+    rewrite (proj2 (kind_eqb_eq k k) eq_refl), Nat.eqb_refl, tys_py_eqb_refl; auto.
+Qed.
+
+(* ================================================================== function-level passes *)
+Lemma sig_eqb_refl : forall s, sig_eqb s s = true.
+Proof. intros; apply sig_eqb_eq; reflexivity. Qed.
+Lemma stripped_eqb_refl : forall s, stripped_eqb s s = true.
+Proof. intros; apply stripped_eqb_iff; auto. Qed.
+
+Lemma remove_duplicates_wider : forall H f, func_wider H f (remove_duplicates_f f).
+Proof.
+  intros H f. unfold func_wider, remove_duplicates_f; simpl. repeat split. intros s Hs.
+  destruct (dedup_by_cover sig_eqb sig_eqb_refl _ _ Hs) as [y [Hy E]]. apply sig_eqb_eq in E. subst y.
+  exists s. split; [assumption | apply sig_wider_refl].
+Qed.
+Lemma remove_duplicates_wf : forall P f, wf_func P f -> wf_func P (remove_duplicates_f f).
+Proof.
+  intros P f W. unfold wf_func, remove_duplicates_f in *; simpl. apply Forall_forall. intros s Hs.
+  apply dedup_by_subset in Hs. rewrite Forall_forall in W; auto.
+Qed.
+
+(* signature_merge_sound, core: every original signature is covered by its group's signature *)
+Lemma combine_returns_wider : forall H f, func_wider H f (combine_returns_f f).
+Proof.
+  intros H f. unfold func_wider, combine_returns_f; simpl. repeat split. intros s Hs.
+  destruct (dedup_by_cover stripped_eqb stripped_eqb_refl _ _ Hs) as [s0 [H0 E]].
+  exists (combine_group (f_sigs f) s0). split; [apply in_map; assumption|].
+  apply stripped_eqb_iff in E. destruct E as [E1 [E2 E3]].
+  unfold sig_wider, combine_group; simpl. rewrite <- E1, <- E2, <- E3. repeat split.
+  - apply Forall2_refl. apply param_wider_refl.
+  - apply oparam_wider_refl.
+  - apply oparam_wider_refl.
+  - assert (Hm : In (s_ret s) (map s_ret (filter (stripped_eqb s0) (f_sigs f)))).
+    { apply in_map. apply filter_In. split; [assumption|]. apply stripped_eqb_iff. auto. }
+    destruct (dedup_by_cover py_eqb py_eqb_refl _ _ Hm) as [y [Hy Ey]].
+    eapply wider_trans; [apply py_eqb_wider; exact Ey|]. apply join_widens. exact Hy.
+Qed.
+Lemma combine_returns_wf : forall k f, wf_func (wf k) f -> wf_func (wf k) (combine_returns_f f).
+Proof.
+  intros k f W. unfold wf_func, combine_returns_f in *; simpl. apply Forall_forall. intros s Hs.
+  apply in_map_iff in Hs. destruct Hs as [s0 [<- H0]]. apply dedup_by_subset in H0.
+  rewrite Forall_forall in W. destruct (W s0 H0) as [Pp [S [SS [R E]]]].
+  unfold wf_sig, combine_group; simpl. repeat split; try assumption.
+  - apply join_wf. apply Forall_forall. intros t Ht. apply dedup_by_subset in Ht.
+    apply in_map_iff in Ht. destruct Ht as [s1 [<- H1]]. apply filter_In in H1. destruct H1 as [H1 _].
+    apply (W s1 H1).
+  - apply Forall_forall. intros t Ht. apply dedup_by_subset in Ht. apply in_flat_map in Ht.
+    destruct Ht as [s1 [H1 Ht]]. apply filter_In in H1. destruct H1 as [H1 _].
+    destruct (W s1 H1) as [_ [_ [_ [_ E1]]]]. rewrite Forall_forall in E1; auto.
+Qed.
+
+Lemma absorb_param_wider : forall H p, param_wider H p (absorb_param p).
+Proof.
+  intros H p. unfold absorb_param. destruct (p_mut p) as [m|] eqn:E; [|apply param_wider_refl].
+  unfold param_wider; simpl. rewrite E. repeat split; apply join_widens; simpl; auto.
+Qed.
+Lemma absorb_param_wf : forall k p, wf_param (wf k) p -> wf_param (wf k) (absorb_param p).
+Proof.
+  intros k p [W M]. unfold absorb_param. destruct (p_mut p) as [m|] eqn:E; [|split; [assumption | rewrite E; exact I]].
+  unfold wf_param; simpl. split; [|exact I]. apply join_wf. repeat constructor; assumption.
+Qed.
+Lemma absorb_sig_wider : forall H s, sig_wider H s (absorb_sig s).
+Proof.
+  intros H s. unfold sig_wider, absorb_sig; simpl. repeat split.
+  - apply Forall2_map_r. intros; apply absorb_param_wider.
+  - destruct (s_star s); simpl; [apply absorb_param_wider | exact I].
+  - destruct (s_starstar s); simpl; [apply absorb_param_wider | exact I].
+  - apply wider_refl.
+Qed.
+Lemma absorb_sig_wf : forall k s, wf_sig (wf k) s -> wf_sig (wf k) (absorb_sig s).
+Proof.
+  intros k s [Pp [S [SS [R E]]]]. unfold wf_sig, absorb_sig; simpl. repeat split; try assumption.
+  - apply Forall_map_pres; [apply absorb_param_wf | assumption].
+  - destruct (s_star s); simpl; [apply absorb_param_wf; assumption | exact I].
+  - destruct (s_starstar s); simpl; [apply absorb_param_wf; assumption | exact I].
+Qed.
+
+Lemma normalize_self_sig_wider : forall H cls s, sig_wider H s (normalize_self_sig cls s).
+Proof.
+  intros H cls s. unfold normalize_self_sig. destruct (s_params s) as [|p rest] eqn:Ep; [apply sig_wider_refl|].
+  destruct (Nat.eqb (p_name p) 0 && is_generic (p_ty p) && Nat.eqb (base_cid (p_ty p)) cls); [|apply sig_wider_refl].
+  unfold sig_wider; simpl. rewrite Ep. repeat split; try apply oparam_wider_refl; try apply wider_refl.
+  constructor; [|apply Forall2_refl; apply param_wider_refl].
+  unfold param_wider; simpl. repeat split.
+  - intros v A. destruct (p_ty p); try assumption.
+    + apply admits_gen in A. simpl. tauto.
+    + apply admits_tup in A. destruct A as [items [-> [S _]]]. exact S.
+    + apply admits_call in A. destruct A as [a [r [-> [S _]]]]. exact S.
+  - destruct (p_mut p); [apply wider_refl | reflexivity].
+Qed.
+Lemma normalize_self_sig_wf : forall k cls s, wf_sig (wf k) s -> wf_sig (wf k) (normalize_self_sig cls s).
+Proof.
+  intros k cls s W. unfold normalize_self_sig. destruct (s_params s) as [|p rest] eqn:Ep; [assumption|].
+  destruct (Nat.eqb (p_name p) 0 && is_generic (p_ty p) && Nat.eqb (base_cid (p_ty p)) cls); [|assumption].
+  destruct W as [Pp [S [SS [R E]]]]. unfold wf_sig; simpl. repeat split; try assumption.
+  rewrite Ep in Pp. inversion Pp as [|? ? [Wt Wm] Pr]; subst. constructor; [|assumption].
+  unfold wf_param; simpl. split; [|assumption].
+  destruct (p_ty p); try assumption; inversion Wt; subst; constructor.
+Qed.
+
+Lemma map_funcs_unit_eq : forall g u,
+  map_funcs_unit g u = unit_map (fun c => c) (fun _ => g) (fun c => c) g u.
+Proof. intros g [cs cls fs]. unfold map_funcs_unit, unit_map; simpl. rewrite map_id. reflexivity. Qed.
+Lemma normalize_self_eq : forall u,
+  normalize_self u = unit_map (fun c => c) (fun cls => map_func (normalize_self_sig cls)) (fun c => c) (fun f => f) u.
+Proof. intros [cs cls fs]. unfold normalize_self, unit_map; simpl. rewrite !map_id. reflexivity. Qed.
+
+Lemma adjust_self_no_classes : forall u, u_classes u = [] -> adjust_self u = u.
+Proof. intros [cs cls fs] E; simpl in E; subst. reflexivity. Qed.
+
+Lemma Forall2_map_post : forall {A B} (R : A -> B -> Prop) (g : B -> B) l l',
+  (forall x y, R x y -> R x (g y)) -> Forall2 R l l' -> Forall2 R l (map g l').
+Proof. intros A B R g l l' Hg F. induction F; simpl; constructor; auto. Qed.
+
+Lemma resolve_unit_wider : forall H u, unit_wider H u (resolve_unit u).
+Proof.
+  intros H u.
+  assert (W : unit_wider H u (map_ty_unit resolve u)).
+  { unfold map_ty_unit. apply (map_unit4_wider Itrue); try (intros; apply resolve_widens_lemma).
+    apply Itrue_all. }
+  destruct W as [C [L F]]. unfold unit_wider, resolve_unit; simpl. repeat split; try assumption.
+  apply Forall2_map_post; [|exact L].
+  intros x y [N [B [M K]]]. unfold class_wider; simpl. repeat split; try assumption.
+  rewrite map_map. simpl. exact B.
+Qed.
+
+(* ================================================================== one pass, then the pipeline *)
+Lemma hier_of_classes_nil : forall u, hier_of u = [] -> u_classes u = [].
+Proof. intros u E. unfold hier_of in E. destruct (u_classes u); [reflexivity | discriminate]. Qed.
+
+Lemma run_pass_sound : forall k cs o Hd p u u',
+  run_pass cs o Hd p u = Some u' ->
+  ranked (hier_of u ++ Hd) ->
+  (p = PAdjustSelf -> hier_of u = []) ->
+  (needs_wf p = true -> wf_unit k u) ->
+  unit_wider (hier_of u ++ Hd) u u' /\ hier_of u' = hier_of u /\
+  (wf_unit k u -> keeps_wf p = true -> wf_unit k u').
+Proof.
+  intros k cs o Hd p u u' E R NC NW. set (H := hier_of u ++ Hd) in *.
+  destruct p; simpl in E; try discriminate; try (inversion E; subst u'; clear E).
+  - (* NormalizeGenericSelfTypes *)
+    rewrite normalize_self_eq. split; [|split].
+    + apply (unit_map_wider Itrue); try (intros; apply const_wider_refl); try (intros; apply func_wider_refl);
+        [|apply Itrue_all].
+      intros n f Wf. apply (map_func_wider Itrue); [|exact Wf].
+      intros; apply normalize_self_sig_wider.
+    + apply unit_map_hier.
+    + intros W _. apply unit_map_wf; auto. intros n f Wf. apply map_func_wf; [|assumption].
+      intros; apply normalize_self_sig_wf; assumption.
+  - (* RemoveDuplicates *)
+    rewrite map_funcs_unit_eq. split; [|split].
+    + apply (unit_map_wider Itrue); try (intros; apply const_wider_refl); try (intros; apply remove_duplicates_wider).
+      apply Itrue_all.
+    + apply unit_map_hier.
+    + intros W _. apply unit_map_wf; auto; intros; apply remove_duplicates_wf; assumption.
+  - (* SimplifyUnions *)
+    split; [|split].
+    + apply (map_unit4_wider Itrue); try (intros; apply simplify_unions_widens_lemma). apply Itrue_all.
+    + apply unit_map_hier.
+    + intros W _. apply map_unit4_wf; try assumption; intros; apply simplify_unions_wf; assumption.
+  - (* CombineReturnsAndExceptions *)
+    rewrite map_funcs_unit_eq. split; [|split].
+    + apply (unit_map_wider Itrue); try (intros; apply const_wider_refl); try (intros; apply combine_returns_wider).
+      apply Itrue_all.
+    + apply unit_map_hier.
+    + intros W _. apply unit_map_wf; auto; intros; apply combine_returns_wf; assumption.
+  - (* CombineContainers *)
+    destruct (forallb (fun t => is_some (cc_top t)) (types_of_unit u)); [|discriminate].
+    inversion E; subst u'; clear E. specialize (NW eq_refl). split; [|split].
+    + apply (map_unit4_wider (wf k)); try (intros; apply (combine_containers_widens_lemma H k); assumption).
+      assumption.
+    + apply unit_map_hier.
+    + intros W _. apply map_unit4_wf; try assumption; intros; apply combine_containers_wf; assumption.
+  - (* SimplifyContainers *)
+    split; [|split].
+    + apply (map_unit4_wider Itrue); try (intros; apply simplify_containers_widens_lemma). apply Itrue_all.
+    + apply unit_map_hier.
+    + intros W _. apply map_unit4_wf; try assumption; intros; apply simplify_containers_wf; assumption.
+  - (* SimplifyUnionsWithSuperclasses *)
+    specialize (NW eq_refl). split; [|split].
+    + apply (map_unit4_wider (wf k));
+        try (intros; apply (simplify_superclasses_widens_lemma H k); assumption). assumption.
+    + apply unit_map_hier.
+    + intros W _. apply map_unit4_wf; try assumption; intros; apply simplify_superclasses_wf; assumption.
+  - (* CollapseLongUnions *)
+    split; [|split].
+    + apply (map_unit4_wider Itrue); try (intros; apply collapse_long_unions_widens_lemma). apply Itrue_all.
+    + apply unit_map_hier.
+    + intros W _. apply map_unit4_wf; try assumption; intros; apply collapse_long_unions_wf; assumption.
+  - (* AdjustReturnAndConstantGenericType *)
+    split; [|split].
+    + apply (map_unit4_wider Itrue); try (intros; apply adjust_generic_type_widens_lemma);
+        try (intros; apply wider_refl). apply Itrue_all.
+    + apply unit_map_hier.
+    + intros W _. apply map_unit4_wf; try assumption; try (intros; assumption);
+        intros; apply adjust_generic_type_wf; assumption.
+  - (* AbsorbMutableParameters *)
+    rewrite map_funcs_unit_eq. split; [|split].
+    + apply (unit_map_wider Itrue); try (intros; apply const_wider_refl); [| |apply Itrue_all].
+      * intros n f Wf. apply (map_func_wider Itrue); [|exact Wf].
+        intros; apply absorb_sig_wider.
+      * intros f Wf. apply (map_func_wider Itrue); [|exact Wf].
+        intros; apply absorb_sig_wider.
+    + apply unit_map_hier.
+    + intros W _. apply unit_map_wf; auto; intros; (apply map_func_wf; [|assumption]);
+        intros; apply absorb_sig_wf; assumption.
+  - (* MergeTypeParameters *)
+    split; [|split].
+    + apply (map_unit4_wider Itrue); try (intros; apply simplify_unions_widens_lemma);
+        try (intros; apply wider_refl). apply Itrue_all.
+    + apply unit_map_hier.
+    + intros W _. apply map_unit4_wf; try assumption; try (intros; assumption);
+        intros; apply simplify_unions_wf; assumption.
+  - (* AdjustSelf: guarded by remove_mutable, where the unit has no classes *)
+    rewrite adjust_self_no_classes by (apply hier_of_classes_nil; apply NC; reflexivity).
+    split; [apply unit_wider_refl | split; [reflexivity | intros; assumption]].
+  - (* LookupClasses *)
+    split; [|split].
+    + apply resolve_unit_wider.
+    + unfold hier_of, resolve_unit; simpl. rewrite !map_map. simpl. apply map_ext. intros c.
+      simpl. rewrite map_map. reflexivity.
+    + intros _ D; discriminate.
+Qed.
+
+Lemma enabled_remove_mutable : forall o fl,
+  forallb (enabled o) fl = true -> existsb is_remove_mutable fl = true -> o_remove_mutable o = true.
+Proof.
+  intros o fl F E. apply existsb_exists in E. destruct E as [f [Hf Ef]]. rewrite forallb_forall in F.
+  specialize (F f Hf). destruct f; try discriminate. exact F.
+Qed.
+
+Lemma run_passes_sound : forall k cs o Hd ps wfok u u',
+  pipeline_ok wfok ps = true ->
+  run_passes cs o Hd ps u = Some u' ->
+  ranked (hier_of u ++ Hd) ->
+  (o_remove_mutable o = true -> hier_of u = []) ->
+  (wfok = true -> wf_unit k u) ->
+  unit_wider (hier_of u ++ Hd) u u'.
+Proof.
+  intros k cs o Hd ps; induction ps as [|[fl p] r IH]; intros wfok u u' OK E R RM W; simpl in E.
+  - inversion E; subst. apply unit_wider_refl.
+  - simpl in OK. apply andb_true_iff in OK. destruct OK as [OK OK3]. apply andb_true_iff in OK.
+    destruct OK as [OK1 OK2].
+    destruct (forallb (enabled o) fl) eqn:En.
+    + destruct (run_pass cs o Hd p u) as [u1|] eqn:E1; [|discriminate].
+      destruct (run_pass_sound k cs o Hd p u u1 E1 R) as [W1 [H1 K1]].
+      * intros ->. apply RM. eapply enabled_remove_mutable; [exact En | exact OK2].
+      * intros Nw. apply W. rewrite Nw in OK1. simpl in OK1. exact OK1.
+      * eapply unit_wider_trans; [exact W1|]. rewrite <- H1.
+        apply (IH (wfok && keeps_wf p) u1 u'); try assumption.
+        -- rewrite H1; assumption.
+        -- rewrite H1; assumption.
+        -- intros Ew. apply andb_true_iff in Ew. destruct Ew as [Ew Ek]. apply K1; auto.
+    + apply (IH (wfok && keeps_wf p) u u'); try assumption.
+      intros Ew. apply andb_true_iff in Ew. apply W. tauto.
+Qed.
+
+Lemma optimize_widens_lemma : forall k o Hd u u',
+  pipeline_ok true passes = true ->
+  ranked (hier_of u ++ Hd) ->
+  wf_unit k u ->
+  (o_remove_mutable o = true -> u_classes u = []) ->
+  opt o Hd u = Some u' ->
+  unit_wider (hier_of u ++ Hd) u u'.
+Proof.
+  intros k o Hd u u' OK R W RM E. unfold opt in E.
+  eapply (run_passes_sound k sc_collapse_single o Hd passes true); try eassumption; [|auto].
+  intros Er. unfold hier_of. rewrite (RM Er). reflexivity.
+Qed.
+
+(* --- Optimize on a bare type *)
+Lemma run_pass_ty_sound : forall H k o p t t',
+  wf k t -> run_pass_ty o p t = Some t' -> wider H t t' /\ wf k t'.
+Proof.
+  intros H k o p t t' W E.
+  destruct p; simpl in E; try discriminate; try (inversion E; subst t'; clear E);
+    try (split; [apply wider_refl | assumption]).
+  - split; [apply simplify_unions_widens_lemma | apply simplify_unions_wf; assumption].
+  - unfold cc_top in E. apply (cc_sound H k _ _ _ W E).
+  - split; [apply simplify_containers_widens_lemma | apply simplify_containers_wf; assumption].
+  - split; [apply collapse_long_unions_widens_lemma | apply collapse_long_unions_wf; assumption].
+Qed.
+
+Lemma optimize_ty_widens_lemma : forall H k o t t', wf k t -> opt_ty o t = Some t' -> wider H t t'.
+Proof.
+  intros H k o t t'. unfold opt_ty. generalize passes. intros ps; revert t.
+  induction ps as [|[fl p] r IH]; intros t W E; simpl in E.
+  - inversion E; subst. apply wider_refl.
+  - destruct (forallb (enabled o) fl); [|apply IH; assumption].
+    destruct (run_pass_ty o p t) as [t1|] eqn:E1; [|discriminate].
+    destruct (run_pass_ty_sound H k o p t t1 W E1) as [W1 W2].
+    eapply wider_trans; [exact W1 | apply IH; assumption].
+Qed.
